@@ -1212,6 +1212,12 @@ func (x *Exec) opChannelData(st *Step) {
 	}
 	payload := synth(st.N, st.Seed, st.Content)
 	frame := ref.EncodeChannelData(num, payload, st.Pad != "none" || c.Stream) // padding is mandatory on streams
+	if st.Pad == "extra" && !c.Stream {
+		// a datagram that is longer than the message it carries (padding and then some): the
+		// length field says where the application data ends
+		frame = append(frame, synth(4+int(st.Seed%9), st.Seed+7, "")...)
+		x.St.inc("channeldata-with-trailing-bytes")
+	}
 	if len(frame) > 65507 && !c.Stream {
 		return // does not fit into one UDP datagram
 	}
